@@ -39,10 +39,10 @@ func (a AV) String() string {
 }
 
 type Scenario struct {
-	Terms      map[string]int64 // path -> rank / integer value; NilRank = nil
-	Bools      map[string]bool  // path of bool-valued call or field -> value
-	DefaultInt *int64           // if set: value of integer-typed terms the scenario does not mention (counters irrelevant to the table)
-	MaxVisits  int              // how often a block may be revisited (loops with concrete induction values); default 1
+	Terms      map[string]int64    // path -> rank / integer value; NilRank = nil
+	Bools      map[string]bool     // path of bool-valued call or field -> value
+	DefaultInt *int64              // if set: value of integer-typed terms the scenario does not mention (counters irrelevant to the table)
+	MaxVisits  int                 // how often a block may be revisited (loops with concrete induction values); default 1
 	Vals       map[ssa.Value]int64 // values keyed by SSA identity (call results, decoded fields); take precedence over Terms
 	BoolVals   map[ssa.Value]bool
 }
@@ -111,8 +111,8 @@ func (r *EvalResult) PhiNext(phi *ssa.Phi) ssa.Value {
 }
 
 type evaluator struct {
-	sc    *Scenario
-	phi   map[*ssa.Phi]ssa.Value
+	sc      *Scenario
+	phi     map[*ssa.Phi]ssa.Value
 	phiVal  map[*ssa.Phi]AV           // concrete values of phis decided on this path (loops with concrete induction)
 	bind    map[*ssa.Parameter]string // parameter -> path of the actual argument (inlined callee evaluation)
 	depth   int
